@@ -2,7 +2,7 @@
    correspondence run evaluates on recorded histories are TRUE on every run of the model
    (for those predicates where this reflection has been proved). *)
 From Coq Require Import List NArith Bool Arith Lia.
-From KV Require Import Lib.LTS Model.Writer Proofs.WriterStmts Proofs.WriterBase Proofs.WriterC08.
+From KV Require Import Lib.LTS Model.Writer Proofs.WriterStmts Proofs.WriterBase Proofs.WriterC08 Proofs.WriterC01a.
 Import ListNotations.
 
 Lemma C08_limits_holds_runs :
@@ -14,4 +14,29 @@ Proof.
   - apply Nat.leb_le; exact H1.
   - apply N.leb_le; exact H2.
   - apply forallb_forall. intros m Hm. apply tp_eqb_eq. apply H4; exact Hm.
+Qed.
+
+Lemma C01_no_foreign_holds_runs :
+  forall cfg ls s, runs cfg ls s -> C01_no_foreign_holds cfg (s_log s) = true.
+Proof.
+  intros cfg ls s Hr. unfold C01_no_foreign_holds. apply forallb_forall. intros [tp m] Hin.
+  simpl. apply tp_eqb_eq. eapply C01_no_foreign_log_proof; eauto.
+Qed.
+
+(* the per-partition form the driver evaluates: the fake's log of tp against the journal
+   entries of tp *)
+Lemma log_is_journal_refl : forall l, 
+  (length l =? length l) && forallb (fun xy : (tpart * msg) * (tpart * msg) =>
+     tp_eqb (fst (fst xy)) (fst (snd xy)) && N.eqb (m_id (snd (fst xy))) (m_id (snd (snd xy)))) (combine l l) = true.
+Proof.
+  intros l. rewrite Nat.eqb_refl. simpl. induction l as [|x l IH]; simpl; [reflexivity|].
+  rewrite tp_eqb_refl, N.eqb_refl. simpl. exact IH.
+Qed.
+
+Lemma log_is_journal_runs :
+  forall cfg ls s, runs cfg ls s -> log_is_journal (s_journal s) (s_log s) = true.
+Proof.
+  intros cfg ls s Hr. unfold log_is_journal.
+  destruct (C01_duplicates_only_by_retry_proof cfg ls s Hr) as [H _]. rewrite <- H.
+  apply log_is_journal_refl.
 Qed.
